@@ -203,3 +203,54 @@ Lemma sumf_ge {A} (f : A -> nat) ls t l : nth_error ls t = Some l -> (f l <= sum
 Proof.
   intros H. destruct (upd_split ls t l l H) as (l1 & l2 & E1 & _ & _). rewrite E1, sumf_app. cbn. lia.
 Qed.
+
+(* ---- the round-robin tail is itself a schedule: exec_full reaches what some schedule reaches *)
+Section RRisSchedule.
+  Context {shared local : Type}.
+  Variable step : shared -> local -> option (shared * local).
+  Variable site : local -> N.
+
+  Lemma exec_app c s1 : forall s2,
+    fst (exec step site c (s1 ++ s2)) = fst (exec step site (fst (exec step site c s1)) s2).
+  Proof.
+    revert c. induction s1 as [|t r IH]; intros c s2; [reflexivity|].
+    cbn [app exec]. destruct (step_thread step site c t) as [c1 e].
+    specialize (IH c1 s2). destruct (exec step site c1 (r ++ s2)) as [c2 es].
+    destruct (exec step site c1 r) as [c3 es3]. cbn [fst] in *. exact IH.
+  Qed.
+
+  Lemma step_thread_finished c t : finished step c t = true -> fst (step_thread step site c t) = c.
+  Proof.
+    unfold finished, step_thread. destruct (nth_error (snd c) t); [|reflexivity].
+    destruct (step (fst c) l); [discriminate|reflexivity].
+  Qed.
+
+  Lemma rr_round_is_exec ts : forall c, fst (rr_round step site c ts) = fst (exec step site c ts).
+  Proof.
+    induction ts as [|t r IH]; intros c; [reflexivity|]. cbn [rr_round exec].
+    destruct (finished step c t) eqn:F.
+    - rewrite IH. pose proof (step_thread_finished c t F) as E.
+      destruct (step_thread step site c t) as [c1 e]. cbn [fst] in E. subst c1.
+      destruct (exec step site c r). reflexivity.
+    - destruct (step_thread step site c t) as [c1 e]. specialize (IH c1).
+      destruct (rr_round step site c1 r), (exec step site c1 r). exact IH.
+  Qed.
+
+  Lemma exec_rr_is_exec fuel : forall c, exists s, fst (exec_rr step site fuel c) = fst (exec step site c s).
+  Proof.
+    induction fuel as [|f IH]; intros c; [exists []; reflexivity|].
+    cbn [exec_rr]. destruct (all_done step c); [exists []; reflexivity|].
+    pose proof (rr_round_is_exec (seq 0 (length (snd c))) c) as E.
+    destruct (rr_round step site c (seq 0 (length (snd c)))) as [c1 es]. cbn [fst] in E.
+    destruct (IH c1) as [s Hs]. destruct (exec_rr step site f c1) as [c2 es']. cbn [fst] in *.
+    exists (seq 0 (length (snd c)) ++ s). rewrite exec_app, <- E. exact Hs.
+  Qed.
+
+  Theorem exec_full_is_exec fuel c sched :
+    exists s, fst (exec_full step site fuel c sched) = fst (exec step site c (sched ++ s)).
+  Proof.
+    unfold exec_full. destruct (exec step site c sched) as [c1 es] eqn:E1.
+    destruct (exec_rr_is_exec fuel c1) as [s Hs]. destruct (exec_rr step site fuel c1) as [c2 es'].
+    exists s. rewrite exec_app, E1. cbn [fst] in *. exact Hs.
+  Qed.
+End RRisSchedule.
